@@ -70,4 +70,71 @@ example :
     normalizeParts "".toList = .error .invalidInput := by
   decide
 
+/-! ## The document/version protocol (all interleavings of unlocked reads and locked sections) -/
+open Proto
+
+/-- **No lost update** ("a write succeeds only if it was based on the latest version … no
+successful write is silently overwritten"), for every number of clients, every interleaving of
+their unlocked disk reads and locked sections, every expected version they send and every
+interference by analysis requests that overwrite the tracked text (`override`), as long as the
+trace uses only the steps covered by the version protocol (`Step.versioned`; see the counterexamples
+below for `delete`/`create` and `rename_symbol`) and is shorter than 2^63 steps (`u64` versions
+saturate).  A successful write of an honest client — `base = some c`: the client sent an `expected`
+version it had been given together with content `c` — found exactly `c` on disk; and every
+successful write found on disk the content of the previous successful write (or the initial
+content), so nothing that was successfully written is ever replaced unseen. -/
+theorem c19_no_lost_update_partial (d0 : Content) (tr : List Step)
+    (hv : ∀ st ∈ tr, st.versioned = true) (hlen : 2 * tr.length + 2 < u64Max) :
+    (∀ ev ∈ (run (init d0) tr).successes, ∀ c, ev.base = some c → ev.diskBefore = some c) ∧
+    chainOk d0 (run (init d0) tr).successes := by
+  have h := run_inv (d0 := d0) tr (init d0) 0 (inv_init d0) hv (by omega)
+  exact ⟨fun ev hev => (h.succ_ok ev hev).2.2, h.chain⟩
+
+/-- **Version chain** ("successes form a chain v → v+1"): every successful write returns
+`expected + 1`, and the versions of the successive successes strictly increase. -/
+theorem c19_version_chain (d0 : Content) (tr : List Step)
+    (hv : ∀ st ∈ tr, st.versioned = true) (hlen : 2 * tr.length + 2 < u64Max) :
+    (∀ ev ∈ (run (init d0) tr).successes, ev.version = ev.expected + 1) ∧
+    (run (init d0) tr).successes.Pairwise (fun a b => a.version < b.version) := by
+  have h := run_inv (d0 := d0) tr (init d0) 0 (inv_init d0) hv (by omega)
+  exact ⟨fun ev hev => (h.succ_ok ev hev).1, h.sorted⟩
+
+/-- **Disk = last success** ("the file always equals the content of the last successful write"). -/
+theorem c19_disk_is_last_success (d0 : Content) (tr : List Step)
+    (hv : ∀ st ∈ tr, st.versioned = true) (hlen : 2 * tr.length + 2 < u64Max) :
+    (run (init d0) tr).disk = some (match (run (init d0) tr).successes.getLast? with
+      | some ev => ev.content
+      | none => d0) := by
+  have h := run_inv (d0 := d0) tr (init d0) 0 (inv_init d0) hv (by omega)
+  exact h.disk_ok
+
+/-- Non-vacuity: two honest writers race; the first wins (1 → 2); the second, whose unlocked read
+happened before that write, is refused (its stale read bumps the version to 3); it re-opens
+(version 4, content `A`) and then succeeds (4 → 5). -/
+example :
+    (∀ st ∈ raceTrace, st.versioned = true) ∧
+    ((run (init "v0".toList) raceTrace).successes.map fun ev => (ev.client, ev.expected, ev.version)) =
+      [(0, 1, 2), (1, 4, 5)] ∧
+    ((run (init "v0".toList) raceTrace).successes.map fun ev => (ev.base, ev.diskBefore)) =
+      [(some "v0".toList, some "v0".toList), (some "A".toList, some "A".toList)] ∧
+    (run (init "v0".toList) raceTrace).disk = some "B2".toList := by
+  decide
+
+/-- **Counterexample (open finding C19-version-reuse)**: `delete_entry` drops the tracked document
+and `create_entry` restarts it at version 1, so a snapshot handed out before the deletion matches
+again: the honest writer 0 (expected = 1, based on `v0`) overwrites `B2`, which it never saw. -/
+theorem c19_counterexample_version_reuse :
+    ∃ ev ∈ (run (init "v0".toList) reuseTrace).successes,
+      ev.client = 0 ∧ ev.base = some "v0".toList ∧ ev.diskBefore = some "B2".toList := by
+  decide
+
+/-- **Counterexample (open finding C19-rename-symbol-bypass)**: `rename_symbol` writes the result
+computed from the caller's (stale) buffer under the lock without any expected version: client 1's
+successful write `B1` is replaced by a text derived from `v0`, and the disk is no longer the
+content of the last successful versioned write. -/
+theorem c19_counterexample_rename_symbol_bypass :
+    ((run (init "v0".toList) symRenameTrace).successes.getLast?.map (·.content)) = some "B1".toList ∧
+    (run (init "v0".toList) symRenameTrace).disk = some "renamed(v0)".toList := by
+  decide
+
 end TrustVerif.C19
